@@ -74,7 +74,7 @@ func registerAll() {
 	reg("L2", "decoder prefix = in-memory prefix: for every slab literal built by a decoder, the constant part of its size, evaluated per state (root / non-root / inlined), equals what getPrefixSize() returns for that state", ruleL2)
 
 	reg("B1", "index-guard exactness: every IndexOutOfBoundsError rejection is reachable exactly under the orderings of (index, bound) that are out of range for the operation (>= for access, > for insertion), and no non-error exit is reachable past the guard under those orderings", ruleB1)
-	reg("L15", "dedup-key completeness: the key under which the slab encoder shares an extra-data entry between inlined containers is a function of the encoded type information and of every field-name list handed in (data dependence through package callees, every non-empty-list return)", ruleL15)
+	reg("L15", "dedup-key completeness: the key under which the slab encoder shares an extra-data entry between inlined containers is a function of the encoded type information and of every field-name list handed in (data dependence through package callees, every non-empty-list return), and every field name enters it together with its length (injective encoding)", ruleL15)
 	reg("L16", "established sizes carry the encoded prefix: every literal, absolute assignment and computed size function starts from the prefix constant of the object's kind and state (data slabs: root / non-root / inlined per getPrefixSize; one constant for every other kind; list literals add their per-entry constant)", ruleL16)
 	reg("K2", "entry counts: element.Count of a collision group is its own element list's Count, of a single element 1; elements.Count is the length of the receiver's element slice (the collision limit counts entries through these)", ruleK2)
 	reg("X7", "decoded objects own their storage: no slice, map or pointer reachable by loads alone from the slab's shared inlined extra data is stored into a freshly decoded slab, element list or extra data", ruleX7)
@@ -82,6 +82,8 @@ func registerAll() {
 	reg("L17", "batch builders: the next tree level is built only from a slice tested (after its last change) to hold at least two slabs; the underfull last slab of a level merges only where its left sibling cannot lend and borrows only where it can", ruleL17)
 	reg("N4", "identity predicate: ValueID.equal(SlabID) is true exactly when address and index both match (evaluated on the four truth assignments of its component comparisons; halves checked from the slice bounds)", ruleN4)
 	reg("L18", "encodability of inlined containers: for every slab size, a slab cannot hold more inlined containers than the one-byte inlined-extra-data index can address (affine bound over setThreshold)", ruleL18)
+	reg("I4", "removal keeps order: no Remove of an element list or array data slab moves an element to another position by an element store (swap-remove)", ruleI4)
+	reg("L19", "CBOR head width table: GetUintCBORSize agrees with the encoder's head widths (1/2/3/5/9 bytes at 23, 2^8-1, 2^16-1, 2^32-1) on every interval of uint64 cut by the constants it compares with", ruleL19)
 	reg("I2", "iterator cursor advance: every exit of a Next/next method that hands out an element is preceded on all paths by a write of the iterator's cursor state (own field, nested iterator, or delegation to its own Next)", ruleI2)
 	reg("I3", "range validation: the range iterator constructors reject start > end and bounds beyond the count", ruleI3)
 
